@@ -1,9 +1,10 @@
 (* Executable model of  impl FromStr for Database  (huginn-net-db/src/db_parse.rs): str::lines(),
    str::trim(), the line dispatch (comment / classes / ua_os / [module] / name = value / error),
    parse_named_value, parse_classes, parse_module, parse_ua_os + parse_key_value, and the four
-   label/signature tables.  Modelled as it is, including: the unparsed remainder of a `classes` / `ua_os` /
-   `[module]` line is discarded by the caller (`.1`), parse_key_value's value grammar is alphanumeric1
-   (so `iOS=[iPad]` stops the ua_os list), unknown modules / names are skipped, `sig` needs a `label`.
+   label/signature tables.  Modelled as it is, including: a `classes` / `ua_os` / `[module]` line must be
+   consumed completely (whole_line), ua_os rules are `name` or `name=[value]` over p0f's name characters,
+   a module header must name one of the five modules (is_known_module), a name the current module does not
+   have is an error, `sig` needs a `label`.
    Definitions only. *)
 From Coq Require Import List NArith Bool.
 From Coq Require Import Strings.Byte.
@@ -117,16 +118,19 @@ Definition parse_module (i : bytes) : option ((bytes * option bytes) * bytes) :=
               | None => None end
   | None => None end.
 
-(* parse_key_value: (alphanumeric1, space0, opt(preceded((space0, tag("="), space0), alphanumeric1))) *)
+(* is_name_char: c.is_ascii_alphanumeric() || " ./-_!?()".contains(c) *)
+Definition is_name_char (b : byte) : bool := is_alnum b || existsb (beqb b) (bs " ./-_!?()").
+(* parse_key_value: pair(take_while1(is_name_char), opt(delimited(tag("=["), take_while1(is_name_char), tag("]")))) *)
 Definition parse_key_value : parser (bytes * option bytes) :=
-  fun i => match alphanumeric1 i with
+  fun i => match span1 is_name_char i with
            | Some (name, r) =>
-               let r1 := space0 r in
-               match strip_prefix (bs "=") (space0 r1) with
-               | Some r2 => match alphanumeric1 (space0 r2) with
-                            | Some (v, r3) => Some ((name, Some v), r3)
-                            | None => Some ((name, None), r1) end
-               | None => Some ((name, None), r1) end
+               match strip_prefix (bs "=[") r with
+               | Some r1 => match span1 is_name_char r1 with
+                            | Some (v, r2) => match strip_prefix (bs "]") r2 with
+                                              | Some r3 => Some ((name, Some v), r3)
+                                              | None => Some ((name, None), r) end
+                            | None => Some ((name, None), r) end
+               | None => Some ((name, None), r) end
            | None => None end.
 
 Definition parse_ua_os (i : bytes) : option (list (bytes * option bytes) * bytes) :=
@@ -180,6 +184,14 @@ Definition set_hreq s v := {| s_classes := s_classes s; s_mtu := s_mtu s; s_ua :
 Definition set_hresp s v := {| s_classes := s_classes s; s_mtu := s_mtu s; s_ua := s_ua s; s_treq := s_treq s; s_tresp := s_tresp s; s_hreq := s_hreq s; s_hresp := v; s_mod := s_mod s |}.
 Definition set_mod s v := {| s_classes := s_classes s; s_mtu := s_mtu s; s_ua := s_ua s; s_treq := s_treq s; s_tresp := s_tresp s; s_hreq := s_hreq s; s_hresp := s_hresp s; s_mod := v |}.
 
+(* is_known_module: ("mtu", None) | ("tcp" | "http", Some("request" | "response")) *)
+Definition is_known_module (md : bytes * option bytes) : bool :=
+  match snd md with
+  | None => bytes_eqb (fst md) (bs "mtu")
+  | Some d => (bytes_eqb (fst md) (bs "tcp") || bytes_eqb (fst md) (bs "http")) &&
+              (bytes_eqb d (bs "request") || bytes_eqb d (bs "response"))
+  end.
+
 Definition ends_with_b (c : byte) (l : bytes) : bool :=
   match revl l with b :: _ => beqb b c | [] => false end.
 
@@ -202,7 +214,7 @@ Definition step_named (s : lstate) (m : bytes) (d : option bytes) (name value : 
         | TblTcpResp => Some (set_tresp s (s_tresp s ++ [(lbl, [])]))
         | TblHttpReq => Some (set_hreq s (s_hreq s ++ [(lbl, [])]))
         | TblHttpResp => Some (set_hresp s (s_hresp s ++ [(lbl, [])]))
-        | TblNone => Some s                                         (* warn!, skipped *)
+        | TblNone => None                                           (* `label` in unknown module (unreachable) *)
         end
     end
   else if bytes_eqb name (bs "sig") then
@@ -227,9 +239,10 @@ Definition step_named (s : lstate) (m : bytes) (d : option bytes) (name value : 
         match http_sig_from_str value with
         | Some sg => match push_last (s_hresp s) sg with Some t => Some (set_hresp s t) | None => None end
         | None => None end end
-    | TblNone => Some s                                             (* warn!, skipped *)
+    | TblNone => None                                               (* `sig` in unknown module (unreachable) *)
     end
-  else Some s.          (* "sys" outside mtu: ignored; anything else: warn!, skipped *)
+  else if bytes_eqb name (bs "sys") && negb is_mtu then Some s      (* "sys" outside mtu: ignored *)
+  else None.                                                        (* unknown named value *)
 
 (* one iteration of `for line in s.lines()`; None = the loader returns Err *)
 Definition step (s : lstate) (raw : bytes) : option lstate :=
@@ -239,11 +252,13 @@ Definition step (s : lstate) (raw : bytes) : option lstate :=
   | c :: _ =>
     if beqb c ";"%byte then Some s
     else if starts_with (bs "classes") line then
-      match parse_classes line with Some (cs, _) => Some (set_classes s (s_classes s ++ cs)) | None => None end
+      match parse_classes line with Some (cs, []) => Some (set_classes s (s_classes s ++ cs)) | _ => None end
     else if starts_with (bs "ua_os") line then
-      match parse_ua_os line with Some (us, _) => Some (set_ua s (s_ua s ++ us)) | None => None end
+      match parse_ua_os line with Some (us, []) => Some (set_ua s (s_ua s ++ us)) | _ => None end
     else if beqb c "["%byte && ends_with_b "]"%byte line then
-      match parse_module line with Some (md, _) => Some (set_mod s (Some md)) | None => None end
+      match parse_module line with
+      | Some (md, []) => if is_known_module md then Some (set_mod s (Some md)) else None
+      | _ => None end
     else
       match s_mod s with
       | Some (m, d) =>
